@@ -5,7 +5,9 @@
 //!  (i)   `(prove facts)` on a proofs-enabled e-graph succeeds iff the facts, used as a rule body,
 //!        match on a plain e-graph running the same program (and, when the program never subsumes
 //!        or deletes, iff `(check facts)` succeeds there); it never panics;
-//!  (ii)  the returned proof (and the proof before simplification, which is still in the store) is
+//!  (ii)  the returned proof (and the pre-simplification root node, which is still in the store with
+//!        its sub-proofs simplified in place; the proof before simplification is checked in-tree by
+//!        prove itself and a failure there is a panic, observed under (i)) is
 //!        accepted by the in-tree checker against the e-graph's own checking program (hook H3),
 //!        and proves the fact that was asked;
 //!  (iii) every single-point alteration (a rule / top-level action removed from the checking
@@ -299,7 +301,7 @@ enum J {
     Sym(usize),
     Congr(usize, usize, usize),
     /// MergeFn / ContainerNormalize: link-only
-    Unmodelled(&'static str, Vec<usize>),
+    Unmodelled(&'static str, Vec<usize>, String),
     Eval,
 }
 
@@ -376,8 +378,8 @@ fn walk(store: &ProofStore, root: ProofId) -> (Vec<Node>, HashMap<usize, usize>)
                 Justification::Trans(a, b) => J::Trans(m(a), m(b)),
                 Justification::Sym(a) => J::Sym(m(a)),
                 Justification::Congr { proof, child_index, child_proof } => J::Congr(m(proof), *child_index, m(child_proof)),
-                Justification::MergeFn { old_proof, new_proof, .. } => J::Unmodelled("MergeFn", vec![m(old_proof), m(new_proof)]),
-                Justification::ContainerNormalize { proof } => J::Unmodelled("ContainerNormalize", vec![m(proof)]),
+                Justification::MergeFn { old_proof, new_proof, function } => J::Unmodelled("MergeFn", vec![m(old_proof), m(new_proof)], function.clone()),
+                Justification::ContainerNormalize { proof } => J::Unmodelled("ContainerNormalize", vec![m(proof)], String::new()),
             };
             Node { l: tm_of(store, pr.lhs(), &mut memo), r: tm_of(store, pr.rhs(), &mut memo), j, pid: *p }
         })
@@ -578,6 +580,9 @@ impl<'a> Twin<'a> {
 }
 
 fn twin_verdict(cp: &CheckProg, nodes: &[Node], root: usize, edit: &Edit) -> Tw {
+    if matches!(edit, Edit::RemoveFunction(_)) {
+        return Tw::Unknown;
+    }
     let mut cmds: Vec<&C> = Vec::new();
     let mut ai = 0usize;
     for c in &cp.cmds {
@@ -612,6 +617,8 @@ enum Edit {
     None,
     RemoveRule(String),
     RemoveAction(usize),
+    /// the declaration of a function whose merge a MergeFn step evaluates (link-only)
+    RemoveFunction(String),
 }
 
 #[derive(Clone, Debug)]
@@ -684,6 +691,7 @@ fn hook_edit(e: &Edit) -> VerifProgramEdit {
         Edit::None => VerifProgramEdit::Unchanged,
         Edit::RemoveRule(n) => VerifProgramEdit::RemoveRule(n.clone()),
         Edit::RemoveAction(i) => VerifProgramEdit::RemoveGlobalAction(*i),
+        Edit::RemoveFunction(n) => VerifProgramEdit::RemoveFunction(n.clone()),
     }
 }
 
@@ -701,6 +709,18 @@ fn hook_mut(nodes: &[Node], m: &Mut) -> VerifProofMutation {
     }
 }
 
+/// alterations that leave a step unjustified whatever the unmodelled steps do: a used rule or the
+/// function of a used MergeFn step is gone; a Rule step lost a premise; a Congr index is out of range
+fn certainly_unjustified(e: &Edit, m: &Mut, nodes: &[Node]) -> bool {
+    match (e, m) {
+        (Edit::RemoveRule(n), Mut::None) => nodes.iter().any(|x| matches!(&x.j, J::Rule { name, .. } if name == n)),
+        (Edit::RemoveFunction(f), Mut::None) => nodes.iter().any(|x| matches!(&x.j, J::Unmodelled("MergeFn", _, g) if g == f)),
+        (Edit::None, Mut::DropPrem(..)) => true,
+        (Edit::None, Mut::CongrIdx(i, k)) => matches!(&nodes[*i].r, Tm::App(_, cs) if *k >= cs.len()),
+        _ => false,
+    }
+}
+
 fn reaches(nodes: &[Node], from: usize, to: usize) -> bool {
     if from == to {
         return true;
@@ -710,7 +730,7 @@ fn reaches(nodes: &[Node], from: usize, to: usize) -> bool {
         J::Trans(a, b) => vec![*a, *b],
         J::Sym(a) => vec![*a],
         J::Congr(a, _, c) => vec![*a, *c],
-        J::Unmodelled(_, c) => c.clone(),
+        J::Unmodelled(_, c, _) => c.clone(),
         _ => vec![],
     };
     ch.iter().any(|c| reaches(nodes, *c, to))
@@ -800,6 +820,7 @@ impl Names {
             Edit::None => "ENone".into(),
             Edit::RemoveRule(n) => format!("ERemoveRule {}", intern(&mut self.r, n)),
             Edit::RemoveAction(i) => format!("ERemoveAction {i}"),
+            Edit::RemoveFunction(_) => panic!("unmodelled edit"),
         }
     }
     fn mutation(&mut self, m: &Mut) -> String {
@@ -993,6 +1014,19 @@ fn run_program(
             // checker rejects prove's own proof and prove_exists panics
             let key = if uses_subsume && msg.contains("Existence proof should be valid before simplification") {
                 "prove-panic:change-action-args"
+            } else if msg.contains("Existence proof should be valid before simplification") && msg.contains("function fact mismatch") {
+                // known finding: a function fact reached through a union of its key gets a
+                // congruence proof f(k', v) = f(k, v); the checker's function-fact arm demands a
+                // reflexive equality and rejects prove's own proof
+                "prove-panic:function-fact-congruence"
+            } else if msg.contains("Existence proof should be valid before simplification") && msg.contains("MergeFn error") && msg.contains("proof is not reflexive") {
+                // known finding (same family): the old/new sub-proofs of a MergeFn step are
+                // congruence-transported when the two writes used keys equal through a union
+                "prove-panic:mergefn-not-reflexive"
+            } else if msg.contains("simplified existence proof should still be valid") && msg.contains("MergeFnResultMismatch") {
+                // known finding: map_child_proofs overwrites a MergeFn node's proposition with
+                // (old.lhs, new.rhs) when a sub-proof changes under simplification
+                "prove-panic:simplify-breaks-mergefn"
             } else {
                 "prove-panic"
             };
@@ -1056,7 +1090,7 @@ fn run_program(
                         let unsimplified = if premise_proofs.len() == 1 { premise_proofs[0] } else { id };
                         st.rechecks += 1;
                         if let Err(e) = recheck(&pe, &store, unsimplified, &VerifProgramEdit::Unchanged, &VerifProofMutation::Unchanged) {
-                            viol(format!("the unsimplified proof of (prove {ftxt}) is rejected by the in-tree checker: {e}"), "unsimplified-proof-rejected", viols);
+                            viol(format!("the pre-simplification root node of (prove {ftxt}) is rejected by the in-tree checker: {e}"), "unsimplified-proof-rejected", viols);
                         }
                     }
                 }
@@ -1071,7 +1105,7 @@ fn run_program(
                 J::Trans(..) => "Trans",
                 J::Sym(_) => "Sym",
                 J::Congr(..) => "Congr",
-                J::Unmodelled(k, _) => k,
+                J::Unmodelled(k, _, _) => k,
                 J::Eval => "Eval",
             });
         }
@@ -1120,6 +1154,10 @@ fn run_program(
         }
         for i in 0..cp.n_actions {
             cands.push((Edit::RemoveAction(i), Mut::None));
+        }
+        let merge_fns: BTreeSet<String> = nodes.iter().filter_map(|x| if let J::Unmodelled("MergeFn", _, g) = &x.j { Some(g.clone()) } else { None }).collect();
+        for g in merge_fns {
+            cands.push((Edit::RemoveFunction(g), Mut::None));
         }
         // terms that occur in the proof, with their ids in the store's dag
         let mut pool: Vec<(Tm, TermId)> = Vec::new();
@@ -1231,6 +1269,7 @@ fn run_program(
             let kind = if e != Edit::None {
                 match e {
                     Edit::RemoveRule(_) => "remove-rule",
+                    Edit::RemoveFunction(_) => "remove-merge-function",
                     _ => "remove-action",
                 }
             } else {
@@ -1238,7 +1277,12 @@ fn run_program(
             };
             bump(&mut st.mut_hist, kind);
             let mutated = apply_mut(&nodes, &m);
-            let tw = twin_verdict(&cp, &mutated, rooti, &e);
+            let mut tw = twin_verdict(&cp, &mutated, rooti, &e);
+            if tw == Tw::Unknown && certainly_unjustified(&e, &m, &nodes) {
+                // outside the modelled fragment only the alterations whose rejection does not
+                // depend on unmodelled steps are judged
+                tw = Tw::Reject;
+            }
             match (&verdict, tw) {
                 (Ok(()), Tw::Reject) => {
                     viol(
@@ -1247,6 +1291,7 @@ fn run_program(
                             match (&e, &m) {
                                 (Edit::RemoveRule(n), _) => format!("rule {n} removed"),
                                 (Edit::RemoveAction(i), _) => format!("top-level action #{i} removed"),
+                                (Edit::RemoveFunction(g), _) => format!("declaration (merge function) of {g} removed"),
                                 (_, m) => format!("{m:?}"),
                             }
                         ),
@@ -1359,7 +1404,7 @@ fn generate(seed: u64, index: u64) -> (String, Vec<Vec<String>>, &'static str) {
     let flavour = r.below(10);
     // 0-6: constructors / relations only (modelled); 7-8: + subsume; 9: lattice functions and
     // primitives as the shared generator produces them (link-only)
-    let bias = if flavour == 7 || flavour == 8 { Bias::C13 } else { Bias::C01 };
+    let bias = if flavour == 7 || flavour == 8 { Bias::C13 } else if flavour == 9 { Bias::C05 } else { Bias::C01 };
     let ncmds = r.range(5, 14);
     let mut p = Gen::new(&mut r, bias).program(ncmds);
     let mut rng = Rng::for_case(seed ^ 0x5151, index);
@@ -1379,9 +1424,11 @@ fn generate(seed: u64, index: u64) -> (String, Vec<Vec<String>>, &'static str) {
         }
     }
     // text, with named rules
-    let mut text = p.header();
+    // (:no-merge functions are outside what program_supports_proofs accepts)
+    let mut text: String = p.header().lines().filter(|l| !l.contains(":no-merge")).map(|l| format!("{l}\n")).collect();
     let mut k = 0;
     let mut glob = 0;
+    let mut global_names: Vec<String> = Vec::new();
     for c in &p.cmds {
         match c {
             Cmd::Rule(rl) => {
@@ -1402,6 +1449,18 @@ fn generate(seed: u64, index: u64) -> (String, Vec<Vec<String>>, &'static str) {
                         text.push_str(&format!("(union gl{glob} {})\n", p.pat_text(t)));
                     }
                 }
+                // a rule and facts that mention the global
+                let unary: Vec<&egg::Decl> = p.decls.iter().filter(|d| d.kind == Kind::Ctor && d.args == vec![egg::Sort::S]).collect();
+                if !unary.is_empty() && rng.chance(1, 2) {
+                    let f = &rng.pick(&unary).name;
+                    if rng.chance(1, 2) {
+                        text.push_str(&format!("(rule ((= v0 ({f} gl{glob}))) ((union v0 gl{glob})) :name \"rg{glob}\")\n"));
+                    } else {
+                        text.push_str(&format!("(rule ((= v0 ({f} v1)) (= v1 gl{glob})) (({f} v0)) :name \"rg{glob}\")\n"));
+                    }
+                    text.push_str(&format!("({f} gl{glob})\n"));
+                }
+                global_names.push(format!("gl{glob}"));
                 glob += 1;
             }
             Cmd::Act(Action::Subsume(f, args)) => {
@@ -1417,7 +1476,37 @@ fn generate(seed: u64, index: u64) -> (String, Vec<Vec<String>>, &'static str) {
             }
         }
     }
-    if !matches!(p.cmds.last(), Some(Cmd::Run(_))) {
+    if flavour == 9 {
+        // the same key written twice: the stored value is a merge (MergeFn proof step)
+        let mut pool = Vec::new();
+        ground_terms_of(&p, &mut pool);
+        pool.retain(|t| matches!(t, Pat::App(f, _) if p.decls[*f].kind == Kind::Ctor));
+        for (f, d) in p.decls.iter().enumerate() {
+            if matches!(d.kind, Kind::Func(egg::Merge::Min) | Kind::Func(egg::Merge::Max)) && !pool.is_empty() {
+                let t = rng.pick(&pool).clone();
+                let (a, b) = (rng.below(5) as i64, rng.below(5) as i64 + 1);
+                let key = p.pat_text(&Pat::App(f, vec![t]));
+                text.push_str(&format!("(set {key} {a})\n(set {key} {b})\n"));
+            }
+        }
+    }
+    let mut extra_facts: Vec<String> = Vec::new();
+    if flavour == 9 {
+        // a merge function that computes a new value: the row's proof is a MergeFn step
+        let mut pool = Vec::new();
+        ground_terms_of(&p, &mut pool);
+        pool.retain(|t| matches!(t, Pat::App(f, _) if p.decls[*f].kind == Kind::Ctor));
+        if !pool.is_empty() {
+            let t = p.pat_text(rng.pick(&pool));
+            // (a = b is the recorded finding corpus/C12/f_nonidempotent_merge_same_value.json)
+            let a = rng.below(5) as i64 + 1;
+            let b = a + 1 + rng.below(4) as i64;
+            text.push_str(&format!("(function acc (S) i64 :merge (+ old new))\n(set (acc {t}) {a})\n(set (acc {t}) {b})\n"));
+            extra_facts.push(format!("(= (acc {t}) {})", a + b));
+            extra_facts.push(format!("(= (acc {t}) {a})"));
+        }
+    }
+    if !matches!(p.cmds.last(), Some(Cmd::Run(_))) || flavour == 9 {
         text.push_str("(run 2)\n");
     }
     // facts over the ground terms of the program and a few more
@@ -1449,6 +1538,26 @@ fn generate(seed: u64, index: u64) -> (String, Vec<Vec<String>>, &'static str) {
                     };
                     let t = egg::step(&mut plain, &format!("(check {f})")).0.is_ok();
                     truths.push((f, t));
+                }
+            }
+            for (f, d) in p.decls.iter().enumerate() {
+                if let Kind::Func(_) = d.kind {
+                    for t in s_terms.iter().take(5) {
+                        for z in -2i64..7 {
+                            let ft = format!("(= {} {z})", p.pat_text(&Pat::App(f, vec![t.clone()])));
+                            let tr = egg::step(&mut plain, &format!("(check {ft})")).0.is_ok();
+                            if tr || z == 0 {
+                                truths.push((ft, tr));
+                            }
+                        }
+                    }
+                }
+            }
+            for gname in &global_names {
+                for t in s_terms.iter().take(6) {
+                    let f = format!("(= {gname} {})", p.pat_text(t));
+                    let tr = egg::step(&mut plain, &format!("(check {f})")).0.is_ok();
+                    truths.push((f, tr));
                 }
             }
             for (f, d) in p.decls.iter().enumerate() {
@@ -1506,6 +1615,9 @@ fn generate(seed: u64, index: u64) -> (String, Vec<Vec<String>>, &'static str) {
             }
         }
     }
+    for f in extra_facts {
+        facts.push(vec![f]);
+    }
     let fl = match flavour {
         0..=6 => "constructors",
         7 | 8 => "subsume",
@@ -1537,7 +1649,17 @@ fn main() {
             })
             .collect();
         let mseed = v["mseed"].as_u64().unwrap_or(1);
+        let before = viols.len();
         run_program(&text, &facts, mseed, 200, st, viols, w, origin);
+        // a corpus witness of a recorded finding labels the violations it reproduces; generated
+        // programs avoid the trigger, so the same symptom elsewhere keeps its generic key
+        if let (Some(k), "corpus") = (v["finding_key"].as_str(), origin) {
+            for x in viols[before..].iter_mut() {
+                if !x.key.starts_with("prove-panic") && !x.key.starts_with("accepted-unjustified") {
+                    x.key = k.to_string();
+                }
+            }
+        }
     };
     if let Some(path) = &o.replay {
         run_json(std::path::Path::new(path), &mut st, &mut viols, &mut w, "replay");
@@ -1554,6 +1676,9 @@ fn main() {
         for i in 0..nprog {
             let (text, facts, fl) = generate(o.seed, i as u64);
             bump(&mut st.prog_hist, &format!("flavour:{fl}"));
+            if o.extra.iter().any(|a| a == "--dump") {
+                eprintln!(";; case {i} flavour {fl}\n{text};; facts: {facts:?}");
+            }
             run_program(&text, &facts, o.seed.wrapping_mul(1000003) ^ i as u64, max_muts, &mut st, &mut viols, &mut w, "generated");
         }
     }
